@@ -127,7 +127,9 @@ def _prefillable(o):
     records of the behaviour are what the model says without the fillers, as long as the presence of split records
     does not change whether the global record is needed - so only behaviours that are rejected or have a split record
     of their own, with and without validation."""
-    if o["id"] % 3 or o.get("fault") or not any(c["op"] == "CFG" and c["arg"] == "split" for c in o["calls"]):
+    # every third of the first 60 000 behaviours (all of the quick tier), every 24th beyond (bounds the thorough tier:
+    # a prefilled behaviour writes 70 more records on every way of building the formatter)
+    if o["id"] % (3 if o["id"] < 60000 else 24) or o.get("fault") or not any(c["op"] == "CFG" and c["arg"] == "split" for c in o["calls"]):
         return False
     first = next(i for i, c in enumerate(o["calls"]) if c["op"] == "CFG" and c["arg"] == "split")
     # entry dimensions configured once a dimension set exists are an error of their own (ed_late in EmfFormat.tla): the
